@@ -61,6 +61,8 @@ def _tag_param():
     return OneOf([JsonLogWriter, JsonBoardSettingWriter])
 
 
+transparent('bridge_env.data_handler.json_handler.writer.JsonWriter.__enter__', props=['C12', 'C13', 'C17'])
+transparent('bridge_env.data_handler.json_handler.writer.JsonWriter.__exit__', props=['C12', 'C13', 'C17'])
 transparent('bridge_env.data_handler.json_handler.writer.JsonWriter.__init__',
             'bridge_env.data_handler.json_handler.writer.JsonLogWriter.__init__',
             'bridge_env.data_handler.json_handler.writer.JsonBoardSettingWriter.__init__', props=P12)
